@@ -136,7 +136,7 @@ Qed.
 Print Assumptions compile_TJ.
 
 Lemma sinv_init' : sinv init_state ([], []).
-Proof. split; simpl; auto. constructor; simpl; auto. Qed.
+Proof. split; [|split]; simpl; auto. constructor; simpl; auto. split; auto. constructor. Qed.
 
 (* HEADLINE: the tree FullCompile returns is jgood: instruction list + every jump lands on the start of an instruction *)
 Theorem compile_jgood (p : lprogram) (f : func) : compile_program p = COk f -> jgood_func f.
